@@ -50,7 +50,8 @@ def gen_history(rng, length):
         if r < 0.30:
             ops.append({"op": "enter", "i": i})
         elif r < 0.50:
-            ops.append({"op": "exit", "i": i})
+            # a context is left normally or by an exception raised inside the `with` block: the key is released either way
+            ops.append({"op": "exit", "i": i, "exc": rng.random() < 0.35})
         elif r < 0.68:
             ops.append({"op": "use", "i": i})
         elif r < 0.74 and nobj < 4:
@@ -120,7 +121,11 @@ def run_impl(tmp, file0, tape, ops, nobj=2):
             elif k == "exit":
                 if objs[op["i"]]._KeyFile__refcount <= 0:
                     continue
-                objs[op["i"]].__exit__(None, None, None)
+                if op.get("exc"):
+                    err = ValueError("raised inside the with block")
+                    objs[op["i"]].__exit__(type(err), err, None)
+                else:
+                    objs[op["i"]].__exit__(None, None, None)
             elif k == "use":
                 try:
                     sv = objs[op["i"]].encrypt(b"\x00" * 64, "xor")
